@@ -22,17 +22,42 @@ static UByte v_bytes[60];     /* <= 64: CBMC keeps arrays up to 64 elements fiel
 static struct buffer v_buf;
 static Buffer mkbuf(void) { v_buf.argv = v_bytes; v_buf.argc = sizeof v_bytes; v_buf.pos = 0; return &v_buf; }
 
-/* value denoted by an SInt constant or by the portable re-expression foamSIntReduce produces */
-static long denote(Foam f, int depth)
+/*
+ * Value denoted by an SInt constant or by the portable re-expression foamSIntReduce produces, and whether every
+ * constant in it fits 32 bits.  The evaluator is iterative and handles CHAINS: trees over ShiftUp / Or / Negate in
+ * which at every binary node at least one operand is a constant (foamSIntReduce builds a left-leaning chain).  A
+ * recursive evaluator made symbolic execution explore 4^depth shapes and never finished.
+ */
+#define CHAIN 8
+static int fits32(long v) { return v >= -2147483647L - 1 && v <= 2147483647L; }
+static long denote(Foam f, int *all32)
 {
-	if (foamTag(f) == FOAM_SInt) return f->foamSInt.SIntData;
-	V_ASSERT(foamTag(f) == FOAM_BCall && depth < 8, "reduced wide integer is a BCall tree of bounded depth");
-	switch (f->foamBCall.op) {
-	case FOAM_BVal_SIntShiftUp: return (long)((unsigned long) denote(f->foamBCall.argv[0], depth + 1) << denote(f->foamBCall.argv[1], depth + 1));
-	case FOAM_BVal_SIntOr:      return denote(f->foamBCall.argv[0], depth + 1) | denote(f->foamBCall.argv[1], depth + 1);
-	case FOAM_BVal_SIntNegate:  return (long)(0UL - (unsigned long) denote(f->foamBCall.argv[0], depth + 1));
-	default: V_ASSERT(0, "reduced wide integer uses only ShiftUp / Or / Negate"); return 0;
+	int op[CHAIN], side[CHAIN], n = 0, k; long leaf[CHAIN], v;
+	*all32 = 1;
+	for (k = 0; k < CHAIN && foamTag(f) != FOAM_SInt; k++) {
+		V_ASSERT(foamTag(f) == FOAM_BCall, "reduced wide integer is a tree of builtin calls over constants");
+		op[n] = f->foamBCall.op; leaf[n] = 0; side[n] = 0;
+		if (op[n] == FOAM_BVal_SIntNegate) f = f->foamBCall.argv[0];
+		else {
+			V_ASSERT(op[n] == FOAM_BVal_SIntShiftUp || op[n] == FOAM_BVal_SIntOr, "reduced wide integer uses only ShiftUp / Or / Negate");
+			if (foamTag(f->foamBCall.argv[1]) == FOAM_SInt) { leaf[n] = f->foamBCall.argv[1]->foamSInt.SIntData; side[n] = 1; f = f->foamBCall.argv[0]; }
+			else {
+				V_ASSERT(foamTag(f->foamBCall.argv[0]) == FOAM_SInt, "harness evaluator: one operand of every binary node is a constant");
+				leaf[n] = f->foamBCall.argv[0]->foamSInt.SIntData; side[n] = 0; f = f->foamBCall.argv[1];
+			}
+			if (!fits32(leaf[n])) *all32 = 0;
+		}
+		n++;
 	}
+	V_ASSERT(foamTag(f) == FOAM_SInt, "reduced wide integer is a chain of at most 8 operations");
+	v = f->foamSInt.SIntData;
+	if (!fits32(v)) *all32 = 0;
+	for (k = CHAIN - 1; k >= 0; k--) if (k < n) {
+		if (op[k] == FOAM_BVal_SIntNegate) v = (long)(0UL - (unsigned long) v);
+		else if (op[k] == FOAM_BVal_SIntOr) v = v | leaf[k];
+		else v = side[k] ? (long)((unsigned long) v << leaf[k]) : (long)((unsigned long) leaf[k] << v);
+	}
+	return v;
 }
 
 static union foam N_sint = { .foamSInt = { .hdr = { .tag = FOAM_SInt, .argc = 1 } } };
@@ -51,20 +76,14 @@ V_ENTRY(h_codec_sint32, int v;)
 /* (b) wider values are re-expressed by foamSIntReduce: the expression denotes the same value and all its
  *     leaves fit 32 bits (so that (a) applies to them).  The buffer round trip of the whole expression gave no
  *     verdict in 700 s and is not part of the claim. */
-static int leaves32(Foam f, int depth)
-{
-	if (foamTag(f) == FOAM_SInt) return f->foamSInt.SIntData >= -2147483647L - 1 && f->foamSInt.SIntData <= 2147483647L;
-	if (foamTag(f) != FOAM_BCall || depth >= 8) return 0;
-	if (f->foamBCall.op == FOAM_BVal_SIntNegate) return leaves32(f->foamBCall.argv[0], depth + 1);
-	return leaves32(f->foamBCall.argv[0], depth + 1) && leaves32(f->foamBCall.argv[1], depth + 1);
-}
 V_ENTRY(h_codec_sintwide, long v;)
 {
-	Foam r;
+	Foam r; int all32; long d;
 	N_sint.foamSInt.SIntData = in->v;
 	r = foamSIntReduce(&N_sint);
-	V_ASSERT(denote(r, 0) == in->v, "foamSIntReduce: the portable re-expression denotes the same value");
-	V_ASSERT(leaves32(r, 0), "foamSIntReduce: every constant of the re-expression fits 32 bits");
+	d = denote(r, &all32);
+	V_ASSERT(d == in->v, "foamSIntReduce: the portable re-expression denotes the same value");
+	V_ASSERT(all32, "foamSIntReduce: every constant of the re-expression fits 32 bits");
 }
 
 #define SMALL(name, TAG, member, field, ctype, mask)                                                   \
